@@ -172,7 +172,7 @@ func (d *PathDecoder) nestedSymbolsForExpr(expr hcl.Expression) []Symbol {
 				ExprName:      fmt.Sprintf("%d", i),
 				ExprKind:      symbolExprKind(item),
 				path:          d.path,
-				rng:           item.Range(),
+				rng:           closedRange(item.Range()),
 				nestedSymbols: d.nestedSymbolsForExpr(item),
 			})
 		}
